@@ -738,17 +738,16 @@ Definition ctx_ok (st : state) (c : ctx) : Prop :=
   match c_owner c with
   | Some o => (exists d, nth_error (hist st) o = Some d /\ c_super c = option_map VClass (d_super d))
   | None => c_super c = None
-  end /\
-  (c_super c <> None -> lexical_self st c = Ok (c_slot0 c)).
+  end.
 
 Lemma super_eq_spec : forall st c n argc, Inv st -> ctx_ok st c ->
   s_super_get sem_mech st c n = s_super_get sem_spec st c n /\
   s_super_invoke sem_mech st c n argc = s_super_invoke sem_spec st c n argc.
 Proof.
-  intros st c n argc [Hwf Hag] [Hs Hself]. simpl. unfold spec_super_ctx, no_super.
+  intros st c n argc [Hwf Hag] Hs. unfold ctx_ok in Hs. simpl. unfold spec_super_ctx, super_receiver.
   destruct (c_owner c) as [o|].
   - destruct Hs as [d [Hd Hsup]]. rewrite Hd, Hsup. destruct (d_super d) as [s|] eqn:Es; simpl; auto.
-    rewrite Hself by (rewrite Hsup; discriminate). simpl.
+    destruct (lexical_self st c) as [recv|e m|w]; simpl; auto.
     destruct (copydown_eq_chainwalk (hist st) Hwf) as [cs' [Hb _]].
     assert (Hsl : s < List.length (hist st)).
     { destruct Hwf as [_ Hw]. pose proof (Hw o d s Hd Es). assert (o < List.length (hist st)) by (apply nth_error_Some; congruence). lia. }
@@ -760,7 +759,7 @@ Proof.
   - rewrite Hs. auto.
 Qed.
 
-(* T eval_mech_eq_spec_partial (1): on every state in which M's tables are the copy-down of the declared history,
+(* (1): on every state in which M's tables are the copy-down of the declared history,
    every operation in which the two semantics differ gives the same answer *)
 Theorem sem_ops_agree : forall st, Inv st ->
   (forall recv n, s_get sem_mech st recv n = s_get sem_spec st recv n) /\
@@ -1129,35 +1128,20 @@ Lemma mdecls_fix : forall l,
      end) l = mdecls_known l.
 Proof. induction l as [|[k n ps body lab] r IH]; simpl; auto. rewrite IH. rewrite stmts_fix. reflexivity. Qed.
 
-Lemma known_class_stmts : forall p, known_class p = stmts_known false p.
-Proof. unfold known_class. induction p; simpl; auto. rewrite IHp. reflexivity. Qed.
-
 Definition sup_ok (h : list cdef) (sup : option value) (owner : option nat) : Prop :=
   match owner with
   | Some o => exists d, nth_error h o = Some d /\ sup = option_map VClass (d_super d)
   | None => sup = None
   end.
 
-Definition cl_ok (h : list cdef) (cl : closure) : Prop :=
-  sup_ok h (cl_super cl) (cl_owner cl) /\ stmts_known (is_fun (cl_kind cl)) (cl_body cl) = false.
+Definition cl_ok (h : list cdef) (cl : closure) : Prop := sup_ok h (cl_super cl) (cl_owner cl).
 
 Definition G (st : state) : Prop :=
   Inv st /\ forall f cl, nth_error (closures st) f = Some cl -> cl_ok (hist st) cl.
 
 Definition ext (st st' : state) : Prop := exists hl, hist st' = (hist st ++ hl)%list.
 
-Definition C (st : state) (c : ctx) : Prop :=
-  sup_ok (hist st) (c_super c) (c_owner c) /\
-  (c_infn c = false -> c_self c = Some (c_slot0 c) \/ c_super c = None).
-
-Definition task_ok (b : bool) (t : task) : Prop :=
-  match t with
-  | TE e => b = true -> expr_has_super e = false
-  | TA es => b = true -> exprs_have_super es = false
-  | T1 s => stmt_known b s = false
-  | TS ss => stmts_known b ss = false
-  | TEnter _ _ => True
-  end.
+Definition C (st : state) (c : ctx) : Prop := sup_ok (hist st) (c_super c) (c_owner c).
 
 Definition Post (st : state) (r : state * oc) : Prop := G (fst r) /\ ext st (fst r).
 
@@ -1172,7 +1156,7 @@ Proof.
   rewrite nth_error_app1; auto. apply nth_error_Some. congruence.
 Qed.
 Lemma C_ext : forall st st' c, C st c -> ext st st' -> C st' c.
-Proof. intros st st' c [H1 H2] [hl Hh]. split; auto. rewrite Hh. apply sup_ok_ext; auto. Qed.
+Proof. intros st st' c H1 [hl Hh]. unfold C. rewrite Hh. apply sup_ok_ext; auto. Qed.
 
 Definition core (st : state) := (hist st, mstore st, closures st).
 Lemma G_core : forall st st', core st' = core st -> G st -> G st'.
@@ -1231,12 +1215,8 @@ Qed.
 Lemma C_ctx_env : forall st c rho loc, C st c -> C st (ctx_env c rho loc).
 Proof. intros st c rho loc H. exact H. Qed.
 
-Lemma ctx_ok_of_C : forall st c, C st c -> c_infn c = false -> ctx_ok st c.
-Proof.
-  intros st c [Hs Hself] Hf. split.
-  - exact Hs.
-  - intros Hne. unfold lexical_self. destruct (Hself Hf) as [E|E]; [rewrite E; reflexivity|contradiction].
-Qed.
+Lemma ctx_ok_of_C : forall st c, C st c -> ctx_ok st c.
+Proof. intros st c H. exact H. Qed.
 
 (* exec_class depends on the semantics only through the class number *)
 Lemma exec_class_eq : forall c st cd, G st -> exec_class sem_mech c st cd = exec_class sem_spec c st cd.
@@ -1260,15 +1240,13 @@ Proof.
 Qed.
 
 Lemma cl_ok_ext : forall h hl cl, cl_ok h cl -> cl_ok (h ++ hl) cl.
-Proof. intros h hl cl [H1 H2]. split; auto. apply sup_ok_ext; auto. Qed.
+Proof. intros h hl cl H1. apply sup_ok_ext; auto. Qed.
 
-Lemma exec_class_post : forall c st cd b, G st -> stmt_known b (SClass cd) = false ->
-  Post st (exec_class sem_spec c st cd).
+Lemma exec_class_post : forall c st cd, G st -> Post st (exec_class sem_spec c st cd).
 Proof.
-  intros c st cd b [HI Hcl] Hk.
+  intros c st cd [HI Hcl].
   destruct (exec_class sem_spec c st cd) as [st' o] eqn:E.
   destruct (exec_class_inv sem_spec c st cd st' o HI (or_intror eq_refl) E) as [HI' Hc].
-  destruct cd as [name sup defctor ms label]. simpl in Hk. rewrite mdecls_fix in Hk.
   destruct Hc as [[Hh Hcs]|[d [ncl [Hh [Hcs Hf]]]]].
   - split; simpl.
     + split; auto. rewrite Hh, Hcs. exact Hcl.
@@ -1278,10 +1256,9 @@ Proof.
       destruct (Nat.lt_ge_cases f (List.length (closures st))) as [Hlt|Hge].
       * rewrite nth_error_app1 in Hfc by auto. apply cl_ok_ext. apply (Hcl f cl Hfc).
       * rewrite nth_error_app2 in Hfc by auto. apply nth_error_In in Hfc.
-        rewrite Forall_forall in Hf. destruct (Hf cl Hfc) as [Ho [Hs Hb]]. split.
-        -- unfold sup_ok. rewrite Ho. exists d. split; auto.
-           rewrite nth_error_app2 by lia. rewrite Nat.sub_diag. reflexivity.
-        -- eapply Hb; eauto.
+        rewrite Forall_forall in Hf. destruct (Hf cl Hfc) as [Ho [Hs Hb]].
+        unfold cl_ok, sup_ok. rewrite Ho. exists d. split; auto.
+        rewrite nth_error_app2 by lia. rewrite Nat.sub_diag. reflexivity.
     + exists [d]. auto.
 Qed.
 
@@ -1338,14 +1315,6 @@ Qed.
 
 Lemma Post_same : forall st o, G st -> Post st (st, o).
 Proof. intros. split; simpl; auto. apply ext_refl. Qed.
-
-Lemma exprs_super_split : forall b e1 args,
-  (b = true -> expr_has_super e1 || exprs_have_super args = false) ->
-  (b = true -> expr_has_super e1 = false) /\ (b = true -> exprs_have_super args = false).
-Proof. intros b e1 args H. split; intros Hb; apply H in Hb; apply orb_false_elim in Hb; tauto. Qed.
-
-Lemma and_false_imp : forall b x : bool, b && x = false -> b = true -> x = false.
-Proof. intros b x H Hb. subst. exact H. Qed.
 
 Lemma ev_T1_print : forall S f c e st, ev S (Datatypes.S f) c (T1 (SPrint e)) st =
   bind_val (ev S f c (TE e) st) (fun v st1 =>
@@ -1412,24 +1381,24 @@ Lemma ev_enter_native : forall S f c slot0 vs st, ev S (Datatypes.S f) c (TEnter
 Proof. reflexivity. Qed.
 
 (* T eval_mech_eq_spec: the induction over the evaluator *)
-Lemma ev_sim : forall fuel c t st, G st -> C st c -> task_ok (c_infn c) t ->
+Lemma ev_sim : forall fuel c t st, G st -> C st c ->
   ev sem_mech fuel c t st = ev sem_spec fuel c t st /\ Post st (ev sem_spec fuel c t st).
 Proof.
-  induction fuel as [|f IH]; intros c t st HG HC Ht.
+  induction fuel as [|f IH]; intros c t st HG HC.
   - simpl. split; auto. apply Post_same; auto.
-  - assert (IHv : forall e st1, G st1 -> ext st st1 -> task_ok (c_infn c) (TE e) ->
+  - assert (IHv : forall e st1, G st1 -> ext st st1 ->
               ev sem_mech f c (TE e) st1 = ev sem_spec f c (TE e) st1 /\ Post st1 (ev sem_spec f c (TE e) st1)).
-    { intros e st1 H1 H2 H3. apply IH; auto. eapply C_ext; eauto. }
-    assert (IHa : forall es st1, G st1 -> ext st st1 -> task_ok (c_infn c) (TA es) ->
+    { intros e st1 H1 H2. apply IH; auto. eapply C_ext; eauto. }
+    assert (IHa : forall es st1, G st1 -> ext st st1 ->
               ev sem_mech f c (TA es) st1 = ev sem_spec f c (TA es) st1 /\ Post st1 (ev sem_spec f c (TA es) st1)).
-    { intros es st1 H1 H2 H3. apply IH; auto. eapply C_ext; eauto. }
+    { intros es st1 H1 H2. apply IH; auto. eapply C_ext; eauto. }
     assert (IHe : forall tg vs st1, G st1 -> ext st st1 ->
               ev sem_mech f c (TEnter tg vs) st1 = ev sem_spec f c (TEnter tg vs) st1 /\
               Post st1 (ev sem_spec f c (TEnter tg vs) st1)).
     { intros tg vs st1 H1 H2. apply IH; simpl; auto. eapply C_ext; eauto. }
     destruct t as [e|es|s|ss|tg vs].
     + (* expressions *)
-      destruct e as [| b | z | s | x | | | e1 n | e1 n args | e1 args | n | n args | a b]; simpl in Ht.
+      destruct e as [| b | z | s | x | | | e1 n | e1 n args | e1 args | n | n args | a b].
       * split; [reflexivity|apply Post_same; auto].
       * split; [reflexivity|apply Post_same; auto].
       * split; [reflexivity|apply Post_same; auto].
@@ -1438,15 +1407,14 @@ Proof.
       * split; [reflexivity|]. simpl. destruct (assoc "self" (c_env c)); [destruct (nth_error (cells st) n)|]; apply Post_same; auto.
       * split; [reflexivity|]. simpl. destruct (assoc "Self" (c_env c)); [destruct (nth_error (cells st) n); [destruct (get_class_op (heap st) v)|]|]; apply Post_same; auto.
       * (* EGet *)
-        rewrite !ev_TE_get. destruct (IHv e1 st HG (ext_refl st) Ht) as [E P].
+        rewrite !ev_TE_get. destruct (IHv e1 st HG (ext_refl st)) as [E P].
         apply bind_val_sim; auto. intros recv st1 G1 X1.
         apply of_res_sim; auto. { apply get_eq_spec. apply G1. }
         intros v _. split; [reflexivity|]. apply Post_core; auto. apply core_log_dispatch.
       * (* EInvoke *)
-        rewrite exprs_fix in Ht. destruct (exprs_super_split _ _ _ Ht) as [Ht1 Ht2].
-        rewrite !ev_TE_invoke. destruct (IHv e1 st HG (ext_refl st) Ht1) as [E P].
+        rewrite !ev_TE_invoke. destruct (IHv e1 st HG (ext_refl st)) as [E P].
         apply bind_val_sim; auto. intros recv st1 G1 X1.
-        destruct (IHa args st1 G1 X1 Ht2) as [E2 P2].
+        destruct (IHa args st1 G1 X1) as [E2 P2].
         apply bind_vals_sim; auto. intros vs st2 G2 X2.
         apply of_res_sim; auto. { apply invoke_eq_spec. apply G2. }
         intros tg _.
@@ -1456,90 +1424,80 @@ Proof.
         destruct (IHe tg vs _ G3 X3) as [E3 P3]. split; auto.
         eapply Post_trans; [|exact P3]. apply ext_core. apply core_log_dispatch.
       * (* ECall *)
-        rewrite exprs_fix in Ht. destruct (exprs_super_split _ _ _ Ht) as [Ht1 Ht2].
-        rewrite !ev_TE_call. destruct (IHv e1 st HG (ext_refl st) Ht1) as [E P].
+        rewrite !ev_TE_call. destruct (IHv e1 st HG (ext_refl st)) as [E P].
         apply bind_val_sim; auto. intros callee st1 G1 X1.
-        destruct (IHa args st1 G1 X1 Ht2) as [E2 P2].
+        destruct (IHa args st1 G1 X1) as [E2 P2].
         apply bind_vals_sim; auto. intros vs st2 G2 X2.
         apply of_res_sim; auto. intros tg _. apply IHe; auto. eapply ext_trans; eauto.
       * (* ESuperGet *)
-        assert (Hf : c_infn c = false) by (destruct (c_infn c); auto; specialize (Ht eq_refl); discriminate).
         rewrite !ev_TE_superget.
-        apply of_res_sim; auto. { apply (proj1 (super_eq_spec st c n 0 (proj1 HG) (ctx_ok_of_C st c HC Hf))). }
+        apply of_res_sim; auto. { apply (proj1 (super_eq_spec st c n 0 (proj1 HG) (ctx_ok_of_C st c HC))). }
         intros v _. split; [reflexivity|]. apply Post_core; auto.
       * (* ESuperInvoke *)
-        assert (Hf : c_infn c = false) by (destruct (c_infn c); auto; specialize (Ht eq_refl); discriminate).
         rewrite !ev_TE_superinvoke.
-        assert (Hta : task_ok (c_infn c) (TA args)) by (simpl; rewrite Hf; discriminate).
-        destruct (IHa args st HG (ext_refl st) Hta) as [E P].
+        destruct (IHa args st HG (ext_refl st)) as [E P].
         apply bind_vals_sim; auto. intros vs st1 G1 X1.
         apply of_res_sim; auto.
-        { apply (proj2 (super_eq_spec st1 c n (List.length vs) (proj1 G1) (ctx_ok_of_C st1 c (C_ext _ _ _ HC X1) Hf))). }
+        { apply (proj2 (super_eq_spec st1 c n (List.length vs) (proj1 G1) (ctx_ok_of_C st1 c (C_ext _ _ _ HC X1)))). }
         intros tg _.
         match goal with |- ev _ _ _ _ ?s = _ /\ _ => assert (G3 : G s) by (eapply G_core; [reflexivity|auto]);
                                                       assert (X3 : ext st s) by (eapply ext_trans; [exact X1|apply ext_core; reflexivity]) end.
         destruct (IHe tg vs _ G3 X3) as [E3 P3]. split; auto.
       * (* EEq *)
-        destruct (exprs_super_split (c_infn c) a [b]) as [Ht1 Ht2].
-        { intros Hb. specialize (Ht Hb). simpl. rewrite orb_false_r. exact Ht. }
-        assert (Ht2' : c_infn c = true -> expr_has_super b = false).
-        { intros Hb. specialize (Ht2 Hb). simpl in Ht2. rewrite orb_false_r in Ht2. exact Ht2. }
-        rewrite !ev_TE_eq. destruct (IHv a st HG (ext_refl st) Ht1) as [E P].
+        rewrite !ev_TE_eq. destruct (IHv a st HG (ext_refl st)) as [E P].
         apply bind_val_sim; auto. intros va st1 G1 X1.
-        destruct (IHv b st1 G1 X1 Ht2') as [E2 P2].
+        destruct (IHv b st1 G1 X1) as [E2 P2].
         apply bind_val_sim; auto. intros vb st2 G2 X2.
         split; [reflexivity|]. destruct (value_eqb va vb); apply Post_same; auto.
     + (* argument lists *)
-      destruct es as [|e r]; simpl in Ht.
+      destruct es as [|e r].
       * split; [reflexivity|apply Post_same; auto].
-      * destruct (exprs_super_split _ _ _ Ht) as [Ht1 Ht2].
-        rewrite !ev_TA_cons. destruct (IHv e st HG (ext_refl st) Ht1) as [E P].
+      * rewrite !ev_TA_cons. destruct (IHv e st HG (ext_refl st)) as [E P].
         apply bind_val_sim; auto. intros v st1 G1 X1.
-        destruct (IHa r st1 G1 X1 Ht2) as [E2 P2].
+        destruct (IHa r st1 G1 X1) as [E2 P2].
         apply bind_vals_sim; auto. intros vs st2 G2 X2. split; [reflexivity|apply Post_same; auto].
     + (* one statement *)
-      destruct s as [e | e | e | x e | x e | o n e | [e|] | cd | name ps body label | body | body]; simpl in Ht.
+      destruct s as [e | e | e | x e | x e | o n e | [e|] | cd | name ps body label | body | body].
       * (* SPrint *)
-        rewrite !ev_T1_print. destruct (IHv e st HG (ext_refl st) (and_false_imp _ _ Ht)) as [E P].
+        rewrite !ev_T1_print. destruct (IHv e st HG (ext_refl st)) as [E P].
         apply bind_val_sim; auto. intros v st1 G1 X1. rewrite (display_eq st1 v G1).
         split; [reflexivity|]. destruct (display sem_spec st1 v); [apply Post_core; auto|apply Post_same; auto].
       * (* SPrintType *)
-        rewrite !ev_T1_ptype. destruct (IHv e st HG (ext_refl st) (and_false_imp _ _ Ht)) as [E P].
+        rewrite !ev_T1_ptype. destruct (IHv e st HG (ext_refl st)) as [E P].
         apply bind_val_sim; auto. intros v st1 G1 X1. rewrite (type_name_eq st1 v G1).
         split; [reflexivity|]. destruct (type_name sem_spec st1 v); [apply Post_core; auto|apply Post_same; auto].
       * (* SExpr *)
-        rewrite !ev_T1_expr. destruct (IHv e st HG (ext_refl st) (and_false_imp _ _ Ht)) as [E P].
+        rewrite !ev_T1_expr. destruct (IHv e st HG (ext_refl st)) as [E P].
         apply bind_val_sim; auto. intros v st1 G1 X1. split; [reflexivity|apply Post_same; auto].
       * (* SVar *)
-        rewrite !ev_T1_var. destruct (IHv e st HG (ext_refl st) (and_false_imp _ _ Ht)) as [E P].
+        rewrite !ev_T1_var. destruct (IHv e st HG (ext_refl st)) as [E P].
         apply bind_val_sim; auto. intros v st1 G1 X1. split; [reflexivity|].
         destruct (declare c st1 x v) as [st2 rho] eqn:Ed. destruct (declare_hm _ _ _ _ _ _ Ed) as [A1 [A2 A3]].
         apply Post_core; auto. unfold core. rewrite A1, A2, A3. reflexivity.
       * (* SAssign *)
-        rewrite !ev_T1_assign. destruct (IHv e st HG (ext_refl st) (and_false_imp _ _ Ht)) as [E P].
+        rewrite !ev_T1_assign. destruct (IHv e st HG (ext_refl st)) as [E P].
         apply bind_val_sim; auto. intros v st1 G1 X1. split; [reflexivity|].
         destruct (assign (c_env c) st1 x v) as [st2|k m|w] eqn:Ea; simpl; try (apply Post_same; auto).
         destruct (assign_hm _ _ _ _ _ Ea) as [A1 [A2 A3]].
         apply Post_core; auto. unfold core. rewrite A1, A2, A3. reflexivity.
       * (* SSetField *)
-        apply orb_false_elim in Ht. destruct Ht as [Ho He].
-        rewrite !ev_T1_setfield. destruct (IHv o st HG (ext_refl st) (and_false_imp _ _ Ho)) as [E P].
+        rewrite !ev_T1_setfield. destruct (IHv o st HG (ext_refl st)) as [E P].
         apply bind_val_sim; auto. intros recv st1 G1 X1.
-        destruct (IHv e st1 G1 X1 (and_false_imp _ _ He)) as [E2 P2].
+        destruct (IHv e st1 G1 X1) as [E2 P2].
         apply bind_val_sim; auto. intros v st2 G2 X2. split; [reflexivity|].
         destruct (set_property (world_of st2) recv n v); simpl; [apply Post_core; auto|apply Post_same; auto|apply Post_same; auto].
       * (* SReturn (Some e) *)
-        rewrite !ev_T1_return. destruct (IHv e st HG (ext_refl st) (and_false_imp _ _ Ht)) as [E P].
+        rewrite !ev_T1_return. destruct (IHv e st HG (ext_refl st)) as [E P].
         apply bind_val_sim; auto. intros v st1 G1 X1. split; [reflexivity|apply Post_same; auto].
       * (* SReturn None *)
         split; [reflexivity|apply Post_same; auto].
       * (* SClass *)
         rewrite !ev_T1_class. split; [apply exec_class_eq; auto|].
-        eapply (exec_class_post c st cd (c_infn c)); auto.
+        apply exec_class_post; auto.
       * (* SFun *)
-        rewrite stmts_fix in Ht. split; [reflexivity|].
+        split; [reflexivity|].
         assert (Hcl : forall rho, cl_ok (hist st) (mkCl name KFun ps body rho (c_super c) (c_owner c) (c_self c) label)).
-        { intros rho. split; [exact (proj1 HC)|exact Ht]. }
+        { intros rho. exact HC. }
         simpl. destruct (c_local c); simpl.
         -- pose (st1 := set_cells st (cells st ++ [VNil])%list).
            assert (G1 : G st1) by (eapply G_core; [|exact HG]; reflexivity).
@@ -1548,25 +1506,24 @@ Proof.
         -- pose proof (G_new_closure st _ HG (Hcl (c_env c))) as G2.
            split; simpl; [|exists []; rewrite app_nil_r; reflexivity]. eapply G_core; [|exact G2]. reflexivity.
       * (* SBlock *)
-        rewrite stmts_fix in Ht. rewrite !ev_T1_block.
-        destruct (IH (ctx_env c (c_env c) true) (TS body) st HG (C_ctx_env _ _ _ _ HC) Ht) as [E [G1 X1]]. rewrite E.
+        rewrite !ev_T1_block.
+        destruct (IH (ctx_env c (c_env c) true) (TS body) st HG (C_ctx_env _ _ _ _ HC)) as [E [G1 X1]]. rewrite E.
         destruct (ev sem_spec f (ctx_env c (c_env c) true) (TS body) st) as [st1 o1]. simpl in G1, X1.
         split; [reflexivity|]. destruct o1; split; auto.
       * (* STry *)
-        rewrite stmts_fix in Ht. rewrite !ev_T1_try.
-        destruct (IH (ctx_env c (c_env c) true) (TS body) st HG (C_ctx_env _ _ _ _ HC) Ht) as [E [G1 X1]]. rewrite E.
+        rewrite !ev_T1_try.
+        destruct (IH (ctx_env c (c_env c) true) (TS body) st HG (C_ctx_env _ _ _ _ HC)) as [E [G1 X1]]. rewrite E.
         destruct (ev sem_spec f (ctx_env c (c_env c) true) (TS body) st) as [st1 o1]. simpl in G1, X1.
         split; [reflexivity|]. destruct o1; split; simpl; auto.
     + (* statement lists *)
-      destruct ss as [|s r]; simpl in Ht.
+      destruct ss as [|s r].
       * split; [reflexivity|apply Post_same; auto].
-      * apply orb_false_elim in Ht. destruct Ht as [Hs Hr].
-        rewrite !ev_TS_cons.
-        destruct (IH c (T1 s) st HG HC Hs) as [E [G1 X1]]. rewrite E.
+      * rewrite !ev_TS_cons.
+        destruct (IH c (T1 s) st HG HC) as [E [G1 X1]]. rewrite E.
         destruct (ev sem_spec f c (T1 s) st) as [st1 o1]. simpl in G1, X1.
         destruct o1; try (split; [reflexivity|split; auto]).
         assert (HC1 : C st1 (ctx_env c rho (c_local c))) by (apply C_ctx_env; eapply C_ext; eauto).
-        destruct (IH (ctx_env c rho (c_local c)) (TS r) st1 G1 HC1 Hr) as [E2 P2]. split; auto.
+        destruct (IH (ctx_env c rho (c_local c)) (TS r) st1 G1 HC1) as [E2 P2]. split; auto.
         eapply Post_trans; eauto.
     + (* entering a callee *)
       destruct tg as [fid slot0|[] slot0].
@@ -1591,18 +1548,14 @@ Proof.
         { pose proof (core_bind_params (cl_params cl) vs st2 rho0) as K. rewrite E3 in K. simpl in K. rewrite K. exact K2. }
         assert (G3 : G st3) by (eapply G_core; eauto).
         assert (X3 : ext st st3) by (apply ext_core; auto).
-        destruct (proj2 HG fid cl Ecl) as [Hsup Hbody].
+        pose proof (proj2 HG fid cl Ecl) as Hsup.
         cbv beta iota zeta.
         set (c' := mkCtx rho true (cl_super cl) (cl_owner cl) slot0' (Datatypes.S (c_depth c))
                          (match cl_kind cl with KFun => cl_self cl | _ => Some slot0' end)
                          (match cl_kind cl with KFun => true | _ => false end)).
         assert (HC' : C st3 c').
-        { split.
-          - simpl. assert (Hh : hist st3 = hist st) by (inversion K3; auto). rewrite Hh. exact Hsup.
-          - simpl. destruct (cl_kind cl); intros; try discriminate; left; reflexivity. }
-        assert (Ht' : task_ok (c_infn c') (TS (cl_body cl))).
-        { simpl. destruct (cl_kind cl); exact Hbody. }
-        destruct (IH c' (TS (cl_body cl)) st3 G3 HC' Ht') as [E [G4 X4]]. rewrite E.
+        { unfold C. simpl. assert (Hh : hist st3 = hist st) by (inversion K3; auto). rewrite Hh. exact Hsup. }
+        destruct (IH c' (TS (cl_body cl)) st3 G3 HC') as [E [G4 X4]]. rewrite E.
         destruct (ev sem_spec f c' (TS (cl_body cl)) st3) as [st4 o4]. simpl in G4, X4.
         assert (X : ext st st4) by (eapply ext_trans; eauto).
         split; [reflexivity|]. destruct o4; split; auto.
@@ -1619,29 +1572,25 @@ Qed.
 Lemma G_st0 : G st0.
 Proof. split; [exact Inv_st0|]. intros f cl H. destruct f; discriminate. Qed.
 
-(* T eval_mech_eq_spec: for every program of the mini-language outside the known class (no `super` access in a
-   function nested in a method, no member declared as a plain function), the Mechanism - copy-down tables, `super` as a
-   captured value, slot 0 of the running frame as the receiver of super accesses - and the Spec - lookup along the
-   declared ancestry from the instance's class / from the declared superclass of the textually enclosing class, the
-   enclosing method's self - compute the same final state (globals, cells, instances, printed lines, trace, class
-   stores) and the same outcome, whatever the fuel. *)
-Theorem eval_mech_eq_spec : forall p, known_class p = false -> eval_mech p = eval_spec p.
+(* T eval_mech_eq_spec: for EVERY program of the mini-language the Mechanism - copy-down tables, `super` as a captured
+   value - and the Spec - lookup along the declared ancestry from the instance's class / from the declared superclass of
+   the textually enclosing class - compute the same final state (globals, cells, instances, printed lines, trace, class
+   stores) and the same outcome, whatever the fuel.  (Before compiler commit 0fbde2d the statement needed the side
+   condition "no super access in a function nested in a method": see eval_mech_eq_spec_refuted_old.) *)
+Theorem eval_mech_eq_spec : forall p, eval_mech p = eval_spec p.
 Proof.
-  intros p Hk. unfold eval_mech, eval_spec, run. apply ev_sim.
+  intros p. unfold eval_mech, eval_spec, run. apply ev_sim.
   - exact G_st0.
-  - split; simpl; auto.
-  - simpl. rewrite <- known_class_stmts. exact Hk.
+  - reflexivity.
 Qed.
 
-Corollary eval_mech_eq_spec_fuel : forall fuel p, known_class p = false ->
-  ev sem_mech fuel ctx0 (TS p) st0 = ev sem_spec fuel ctx0 (TS p) st0.
+Corollary eval_mech_eq_spec_fuel : forall fuel c p, c_super c = None -> c_owner c = None ->
+  ev sem_mech fuel c (TS p) st0 = ev sem_spec fuel c (TS p) st0.
 Proof.
-  intros fuel p Hk. apply ev_sim.
+  intros fuel c p H1 H2. apply ev_sim.
   - exact G_st0.
-  - split; simpl; auto.
-  - simpl. rewrite <- known_class_stmts. exact Hk.
+  - unfold C, sup_ok. rewrite H2. exact H1.
 Qed.
-
 
 (* ---------- examples: the hypotheses are satisfiable, the statements are not vacuous ---------- *)
 Definition ex_hier : prog := [
@@ -1683,10 +1632,12 @@ Definition ex_known : prog := (ex_hier ++ [
   SVar "e" (EInvoke (EVar "E") "new" []);
   SPrint (EEq (EInvoke (EVar "e") "m" []) (EVar "e"))])%list.
 
-(* the known class: M (as the implementation) passes the nested closure as receiver, S the method's self *)
-Theorem eval_mech_eq_spec_refuted_in_known_class :
-  exists p, known_class p = true /\ show_outcome (eval_mech p) <> show_outcome (eval_spec p).
-Proof. exists ex_known. split; [vm_compute; reflexivity|]. vm_compute. discriminate. Qed.
+(* the model VARIANT of the compiler before commit 0fbde2d (receiver of a super access = slot 0 of the running frame,
+   i.e. the nested closure inside a nested function) does not refine the Spec; the current one does, also here *)
+Theorem eval_mech_eq_spec_refuted_old :
+  exists p, nested_super p = true /\ show_outcome (eval_mech_old p) <> show_outcome (eval_spec p) /\
+            show_outcome (eval_mech p) = show_outcome (eval_spec p).
+Proof. exists ex_known. split; [vm_compute; reflexivity|]. split; [vm_compute; discriminate|vm_compute; reflexivity]. Qed.
 
 Definition sample_programs : list prog := [
   ex_hier;
@@ -1710,8 +1661,6 @@ Example sample_programs_agree :
                     && String.eqb (show_outcome (eval_mech (meta_prog p))) (show_outcome (eval_mech p))) sample_programs = true.
 Proof. vm_compute. reflexivity. Qed.
 
-Example eval_mech_eq_spec_hyp_satisfiable : known_class ex_hier = false.
-Proof. vm_compute. reflexivity. Qed.
 
 (* Object is the implicit root of every ancestry: DeclareClass pre-fills the new table with Object's entries
    (ObjClass::new(.., Some(object_class), {})) and Inherit OVERWRITES them with the superclass's (insert, not
@@ -1787,4 +1736,4 @@ Print Assumptions sem_ops_agree.
 Print Assumptions exec_class_inv.
 Print Assumptions eval_mech_eq_spec.
 Print Assumptions user_override_of_object_method_wins.
-Print Assumptions eval_mech_eq_spec_refuted_in_known_class.
+Print Assumptions eval_mech_eq_spec_refuted_old.
